@@ -209,7 +209,7 @@ Proof.
 Qed.
 
 (** * appending the separator keeps the order when no path is a proper prefix of another *)
-Fixpoint slashes (p : bytes) : nat := match p with [] => O | c :: p' => ((if c =? 47 then 1 else 0) + slashes p')%nat end.
+Fixpoint slashes (p : bytes) : nat := match p with [] => O | c :: p' => ((if N.eqb c 47%N then 1 else 0) + slashes p')%nat end.
 
 Lemma slashes_app a b : slashes (a ++ b) = (slashes a + slashes b)%nat.
 Proof. induction a as [|c a IH]; [reflexivity|]. cbn. rewrite IH. lia. Qed.
@@ -244,3 +244,339 @@ Proof.
     apply app_order; [exact Hxy|]. apply no_proper_prefix; [exact Ey|lia].
   - apply IH. inversion Hu; assumption.
 Qed.
+
+(** * file systems whose names contain no separator *)
+Fixpoint wf_node (n : node) : Prop :=
+  match n with
+  | Dir es => (fix wf_es (es : list (bytes * node)) : Prop :=
+                 match es with [] => True | (k, v) :: r => slashes k = 0%nat /\ wf_node v /\ wf_es r end) es
+  | _ => True
+  end.
+Definition wf_dir (es : list (bytes * node)) : Prop := wf_node (Dir es).
+
+Lemma wf_dir_cons k v r : wf_dir ((k, v) :: r) <-> slashes k = 0%nat /\ wf_node v /\ wf_dir r.
+Proof. reflexivity. Qed.
+
+Lemma lookup_wf c : forall d n, wf_dir d -> lookup_entry c d = Some n -> wf_node n.
+Proof.
+  induction d as [|[k v] d IH]; intros n Hd H; cbn in H; [discriminate|].
+  apply wf_dir_cons in Hd as (_ & Hv & Hr). destruct (beqb c k); [inversion H; subst; exact Hv|eauto].
+Qed.
+
+Lemma names_wf : forall es, wf_dir es -> Forall (fun n => slashes n = 0%nat) (map fst es).
+Proof.
+  induction es as [|[k v] es IH]; intros H; cbn; constructor.
+  - apply wf_dir_cons in H. apply H.
+  - apply IH. apply wf_dir_cons in H. apply H.
+Qed.
+
+Lemma walk_wf : forall comps stack n, Forall wf_dir stack -> walk stack comps = Some n -> wf_node n.
+Proof.
+  induction comps as [|c rest IH]; intros stack n Hs H; cbn [walk] in H.
+  - destruct stack as [|d up]; [discriminate|]. inversion H; subst. inversion Hs; assumption.
+  - destruct stack as [|d up]; [discriminate|].
+    destruct (beqb c [] || beqb c [46]); [eapply IH; eassumption|].
+    destruct (beqb c [46; 46]).
+    + eapply IH; [|exact H]. destruct up; [exact Hs|inversion Hs; assumption].
+    + destruct (lookup_entry c d) as [[| |d']|] eqn:El; try discriminate.
+      * destruct rest; [inversion H; exact I|discriminate].
+      * destruct rest; [inversion H; exact I|discriminate].
+      * eapply IH; [|exact H]. constructor; [|exact Hs]. inversion Hs; subst. eapply (lookup_wf c); eassumption.
+Qed.
+
+Lemma enter_wf : forall comps stack st, Forall wf_dir stack -> enter stack comps = Some st -> Forall wf_dir st.
+Proof.
+  induction comps as [|c rest IH]; intros stack st Hs H; cbn [enter] in H; [inversion H; subst; exact Hs|].
+  destruct stack as [|d up]; [discriminate|].
+  destruct (lookup_entry c d) as [[| |d']|] eqn:El; try discriminate.
+  eapply IH; [|exact H]. constructor; [|exact Hs]. inversion Hs; subst. eapply (lookup_wf c); eassumption.
+Qed.
+
+Lemma resolve_wf root cwd path n : wf_dir root -> resolve root cwd path = Some n -> wf_node n.
+Proof.
+  intros Hr H. unfold resolve in H.
+  assert (H0 : Forall wf_dir [root]) by (constructor; [exact Hr|constructor]).
+  assert (Hrel : match enter [root] cwd with Some st => walk st (split_slash path []) | None => None end = Some n -> wf_node n).
+  { destruct (enter [root] cwd) as [st|] eqn:Ee; [|discriminate]. intros Hw. eapply walk_wf; [|exact Hw]. eapply enter_wf; eassumption. }
+  destruct path as [|b t]; [apply Hrel, H|].
+  destruct (N.eq_dec b 47) as [->|Hne]; [eapply walk_wf; eassumption|].
+  apply Hrel. rewrite <- H. destruct b as [|q]; [reflexivity|]. crack q.
+Qed.
+
+(** * the separator search *)
+Lemma index_sep_unfold f c rest off :
+  index_sep (S f) (c :: rest) off =
+  if c =? 47 then Some (off, 1%nat, [47])
+  else if c =? 92 then
+         match rest with
+         | [] => None
+         | c2 :: rest' => if c2 =? 47 then Some (off, 2%nat, [47]) else index_sep f rest' (S (S off))
+         end
+       else index_sep f rest (S off).
+Proof.
+  destruct (N.eqb_spec c 47) as [->|H47]; [reflexivity|].
+  destruct (N.eqb_spec c 92) as [->|H92].
+  - cbn [index_sep]. destruct rest as [|c2 rest']; [reflexivity|].
+    destruct (N.eqb_spec c2 47) as [->|H2]; [reflexivity|]. destruct c2 as [|q]; [reflexivity|]. crack q.
+  - cbn [index_sep]. destruct c as [|q]; [reflexivity|]. crack q.
+Qed.
+
+Lemma index_sep_spec : forall f pat off i w sp, index_sep f pat off = Some (i, w, sp) ->
+  sp = [47] /\ exists k, i = (off + k)%nat /\ (k + w <= length pat)%nat /\ slashes (firstn k pat) = 0%nat /\ (1 <= w)%nat.
+Proof.
+  induction f as [|f IH]; intros pat off i w sp H; [discriminate|].
+  destruct pat as [|c rest]; [discriminate|]. rewrite index_sep_unfold in H.
+  destruct (N.eqb_spec c 47) as [->|H47].
+  - inversion H; subst. split; [reflexivity|]. exists 0%nat. cbn. repeat split; lia.
+  - destruct (N.eqb_spec c 92) as [->|H92].
+    + destruct rest as [|c2 rest']; [discriminate|]. destruct (N.eqb_spec c2 47) as [->|H2].
+      * inversion H; subst. split; [reflexivity|]. exists 0%nat. cbn. repeat split; lia.
+      * apply IH in H as (-> & k & -> & Hk & Hs & Hw). split; [reflexivity|]. exists (S (S k)). cbn [length firstn slashes].
+        apply N.eqb_neq in H2. rewrite H2. cbn. repeat split; try lia.
+    + apply IH in H as (-> & k & -> & Hk & Hs & Hw). split; [reflexivity|]. exists (S k). cbn [length firstn slashes].
+      apply N.eqb_neq in H47. rewrite H47. cbn. repeat split; try lia.
+Qed.
+
+(** * literal components contain no separator *)
+Lemma decode_width' s : s <> [] -> (1 <= snd (decode_rune s) <= length s)%nat.
+Proof.
+  destruct s as [|b0 t]; [congruence|]. intros _. unfold decode_rune.
+  repeat match goal with
+         | |- context [if ?c then _ else _] => destruct c
+         | |- context [match ?t with [] => _ | _ :: _ => _ end] => destruct t
+         end; cbn [snd length]; lia.
+Qed.
+
+Lemma syms_concat : forall fuel s, (length s <= fuel)%nat -> concat (map snd (syms_fuel fuel s)) = s.
+Proof.
+  induction fuel as [|f IH]; intros s Hl.
+  - destruct s; [reflexivity|cbn in Hl; lia].
+  - destruct s as [|c s']; [reflexivity|]. remember (c :: s') as s eqn:Es.
+    assert (Hne : s <> []) by (rewrite Es; discriminate). pose proof (decode_width' s Hne) as Hw.
+    rewrite (syms_fuel_S f s Hne). cbn [map concat snd]. rewrite IH by (rewrite skipn_length; lia). apply firstn_skipn.
+Qed.
+
+Lemma unquote_slashes : forall rs esc name, unquote_lit rs esc = Some name -> (slashes name <= slashes (concat (map snd rs)))%nat.
+Proof.
+  induction rs as [|[r b] rs IH]; intros esc name H; cbn [unquote_lit] in H; [inversion H; cbn; lia|].
+  cbn [map concat snd]. rewrite slashes_app.
+  destruct (r =? RuneError); [discriminate|].
+  destruct ((r =? 92) && negb esc); [apply IH in H; lia|].
+  destruct (((r =? 63) || (r =? 42) || (r =? 91)) && negb esc); [discriminate|].
+  destruct (unquote_lit rs false) as [t|] eqn:E; [|discriminate]. cbn in H. inversion H; subst.
+  rewrite slashes_app. apply IH in E. lia.
+Qed.
+
+Lemma literal_no_slash comp name : slashes comp = 0%nat -> unquote_lit (syms_of comp) false = Some name -> slashes name = 0%nat.
+Proof.
+  intros Hc H. apply unquote_slashes in H. unfold syms_of in H. rewrite syms_concat in H by lia. lia.
+Qed.
+
+(** * list lemmas *)
+Lemma fold_one (one : bytes -> option (list bytes)) (g : bytes -> list bytes) :
+  (forall pre, one pre = Some (g pre)) -> forall l acc,
+  fold_left (fun a pre => match a, one pre with Some l, Some m => Some (l ++ m) | _, _ => None end) l (Some acc) = Some (acc ++ flat_map g l).
+Proof.
+  intros Hg. induction l as [|x l IH]; intros acc; cbn [fold_left flat_map]; [now rewrite app_nil_r|].
+  rewrite Hg, IH, <- app_assoc. reflexivity.
+Qed.
+
+Lemma flat_map_if {A B} (c : A -> bool) (f : A -> B) X : flat_map (fun n => if c n then [f n] else []) X = map f (filter c X).
+Proof. induction X as [|x X IH]; [reflexivity|]. cbn. destruct (c x); cbn; now rewrite IH. Qed.
+
+Lemma filter_filter {A} (p q : A -> bool) X : filter q (filter p X) = filter (fun n => p n && q n) X.
+Proof.
+  induction X as [|x X IH]; [reflexivity|]. cbn [filter]. destruct (p x); cbn [filter andb]; [|exact IH].
+  destruct (q x); now rewrite IH.
+Qed.
+
+Lemma filter_filter_ext {A} (p q r : A -> bool) X : (forall n, p n && q n = r n) -> filter q (filter p X) = filter r X.
+Proof. intros H. rewrite filter_filter. apply filter_ext. exact H. Qed.
+
+Lemma flat_map_ext_in {A B} (f g : A -> list B) l : (forall x, In x l -> f x = g x) -> flat_map f l = flat_map g l.
+Proof.
+  induction l as [|x l IH]; intros H; [reflexivity|]. cbn. rewrite (H x (or_introl eq_refl)), IH; [reflexivity|].
+  intros y Hy. apply H. right. exact Hy.
+Qed.
+
+Lemma ends_slash_not_dot p : ends_slash p -> beqb p [46] = false.
+Proof.
+  intros [u ->]. apply beqb_neq. destruct u as [|c [|d u]]; cbn; discriminate.
+Qed.
+
+Lemma ends_slash_nonempty p : ends_slash p -> p <> [].
+Proof. intros [u ->]. destruct u; discriminate. Qed.
+
+Definition norm (p : bytes) : bytes := if beqb p [46] then [] else p.
+
+Definition shape (paths : list bytes) : Prop := paths = [[46]] \/ uniform paths.
+
+Lemma shape_norm paths : shape paths -> exists c, Forall (fun pre => slashes pre = c) (map norm paths) /\
+  Forall (fun p => p <> [] /\ (match norm p with [] => [46] | _ => norm p end) = p) paths.
+Proof.
+  intros [->|[c Hu]].
+  - exists 0%nat. split; repeat constructor. discriminate.
+  - exists c. split.
+    + induction Hu as [|p l [He Hc] Hu IH]; cbn; constructor; [|exact IH]. unfold norm. now rewrite (ends_slash_not_dot p He).
+    + induction Hu as [|p l [He Hc] Hu IH]; constructor; [|exact IH]. unfold norm. rewrite (ends_slash_not_dot p He).
+      split; [apply ends_slash_nonempty, He|]. destruct p; [exfalso; eapply ends_slash_nonempty; eauto|reflexivity].
+Qed.
+
+(* what a step produces from prefixes with the same number of separators *)
+Lemma flat_uniform (G : bytes -> list bytes) L c :
+  (forall pre, Forall (fun q => exists n, q = pre ++ n ++ [47] /\ slashes n = 0%nat) (G pre)) ->
+  Forall (fun pre => slashes pre = c) L ->
+  Forall (fun q => ends_slash q /\ slashes q = S c) (flat_map G L).
+Proof.
+  intros HG HL. induction HL as [|pre L Hc HL IH]; cbn; [constructor|].
+  apply Forall_app. split; [|exact IH].
+  eapply Forall_impl; [|apply HG]. cbn. intros q (n & -> & Hn). split.
+  - exists (pre ++ n). now rewrite app_assoc.
+  - rewrite !slashes_app, Hn, Hc. cbn. lia.
+Qed.
+
+Lemma flat_map_map {A B C} (f : B -> list C) (g : A -> B) l : flat_map f (map g l) = flat_map (fun x => f (g x)) l.
+Proof. induction l as [|x l IH]; [reflexivity|]. cbn. now rewrite IH. Qed.
+
+Section Exact.
+  Variable root : list (bytes * node).
+  Variable cwd : list bytes.
+  Hypothesis Hwf : wf_dir root.
+
+  (** ** a literal component *)
+  Definition lit_G (name sep pre : bytes) : list bytes :=
+    if exists_path root cwd (pre ++ name) (negb (beqb sep [])) then [pre ++ name ++ sep] else [].
+
+  Lemma lit_model name sep paths :
+    flat_map (fun p => let p' := if beqb p [46] then name else p ++ name in
+                       if exists_path root cwd p' (negb (beqb sep [])) then [p' ++ sep] else []) paths
+    = flat_map (lit_G name sep) (map norm paths).
+  Proof.
+    rewrite flat_map_map. apply flat_map_ext_in. intros p _. unfold lit_G, norm. cbv zeta.
+    destruct (beqb p [46]); cbn [app]; [reflexivity|]. now rewrite <- app_assoc.
+  Qed.
+
+  Lemma lit_spec comp sep name l : unquote_lit (syms_of comp) false = Some name ->
+    spec_step root cwd (Some l) comp sep = Some (flat_map (lit_G name sep) l).
+  Proof.
+    intros H. unfold spec_step.
+    match goal with |- fold_left ?F _ _ = _ => set (FF := F) end.
+    assert (G : forall l acc, fold_left FF l (Some acc) = Some (acc ++ flat_map (lit_G name sep) l)).
+    { clear l. induction l as [|x l IH]; intros acc; cbn [fold_left flat_map]; [now rewrite app_nil_r|].
+      unfold FF at 2. cbv beta zeta. rewrite H. fold FF. unfold lit_G at 1.
+      rewrite IH, <- app_assoc. reflexivity. }
+    apply (G l []).
+  Qed.
+
+  Lemma lit_G_names name sep pre : slashes name = 0%nat ->
+    Forall (fun q => exists n, q = pre ++ n ++ sep /\ slashes n = 0%nat) (lit_G name sep pre).
+  Proof. intros Hn. unfold lit_G. destruct (exists_path _ _ _ _); repeat constructor. eauto. Qed.
+
+  (** ** a component with pattern characters *)
+  Definition gmode : N := N.lor Extracted.mode_Prefix Extracted.mode_Suffix.
+
+  Definition mstep (its : list ritem) (sep : bytes) (acc : option (list bytes)) (p : bytes) : option (list bytes) :=
+    match acc with
+    | None => None
+    | Some ms =>
+      match glob_dir root cwd p its with
+      | inr _ => None
+      | inl None => None
+      | inl (Some names) =>
+        Some (ms ++ flat_map (fun n => let n' := if beqb p [46] then n else p ++ n in
+                                       if negb (negb (beqb sep [])) || exists_path root cwd n' true then [n' ++ sep] else []) names)
+      end
+    end.
+
+  Definition pat_h (its : list ritem) (sep p : bytes) : list bytes :=
+    match glob_dir root cwd p its with
+    | inl (Some names) =>
+      flat_map (fun n => let n' := if beqb p [46] then n else p ++ n in
+                         if negb (negb (beqb sep [])) || exists_path root cwd n' true then [n' ++ sep] else []) names
+    | _ => []
+    end.
+
+  Lemma model_fold its sep : forall paths acc ms, fold_left (mstep its sep) paths (Some acc) = Some ms ->
+    ms = acc ++ flat_map (pat_h its sep) paths /\
+    Forall (fun p => exists names, glob_dir root cwd p its = inl (Some names)) paths.
+  Proof.
+    induction paths as [|p paths IH]; intros acc ms H; cbn [fold_left flat_map] in *.
+    - inversion H. split; [now rewrite app_nil_r|constructor].
+    - unfold mstep at 2 in H. unfold pat_h at 1.
+      destruct (glob_dir root cwd p its) as [[names|]|] eqn:Eg.
+      + apply IH in H as [-> HF]. split; [now rewrite <- app_assoc|]. constructor; eauto.
+      + exfalso. clear -H. induction paths; cbn in H; [discriminate|auto].
+      + exfalso. clear -H. induction paths; cbn in H; [discriminate|auto].
+  Qed.
+
+  Definition pat_ok (comp sep pre n : bytes) : bool :=
+    match comp_matches comp n with
+    | Some true => (literal_dot comp || negb (has_prefix [46] n))
+                   && (negb (negb (beqb sep [])) || stat_isdir root cwd (pre ++ n))
+    | _ => false
+    end.
+
+  Definition pat_G (comp sep pre : bytes) : list bytes :=
+    match resolve root cwd (match pre with [] => [46] | _ => pre end) with
+    | Some (Dir es) =>
+      map (fun n => pre ++ n ++ sep)
+          (filter (pat_ok comp sep pre) ((if literal_dot comp then [[46]; [46; 46]] else []) ++ map fst es))
+    | _ => []
+    end.
+
+  Lemma pat_spec comp sep a l :
+    unquote_lit (syms_of comp) false = None -> compile_model [comp] gmode = COk [a] ->
+    spec_step root cwd (Some l) comp sep = Some (flat_map (pat_G comp sep) l).
+  Proof.
+    intros Hu Hc. unfold spec_step.
+    match goal with |- fold_left ?F _ _ = _ => set (FF := F) end.
+    assert (G : forall l acc, fold_left FF l (Some acc) = Some (acc ++ flat_map (pat_G comp sep) l)).
+    { clear l. induction l as [|x l IH]; intros acc; cbn [fold_left flat_map]; [now rewrite app_nil_r|].
+      unfold FF at 2. cbv beta zeta. rewrite Hu. fold FF. unfold pat_G at 1.
+      destruct (resolve root cwd match x with [] => [46] | _ :: _ => x end) as [[| |es]|].
+      - rewrite IH, <- app_assoc. reflexivity.
+      - rewrite IH, <- app_assoc. reflexivity.
+      - unfold comp_matches at 1. rewrite Hu. fold gmode. rewrite Hc.
+        rewrite IH, <- app_assoc. reflexivity.
+      - rewrite IH, <- app_assoc. reflexivity. }
+    apply (G l []).
+  Qed.
+
+  Lemma norm_join p n : (if beqb p [46] then n else p ++ n) = norm p ++ n.
+  Proof. unfold norm. destruct (beqb p [46]); reflexivity. Qed.
+
+  Lemma pat_pointwise comp sep a p names :
+    unquote_lit (syms_of comp) false = None -> compile_model [comp] gmode = COk [a] ->
+    (match norm p with [] => [46] | _ => norm p end) = p ->
+    glob_dir root cwd p (map fst a) = inl (Some names) ->
+    pat_h (map fst a) sep p = pat_G comp sep (norm p).
+  Proof.
+    intros Hu Hc Hp Hg. unfold pat_h, pat_G. rewrite Hg, Hp. unfold glob_dir, readdir in Hg.
+    destruct (resolve root cwd p) as [[| |es]|]; try (inversion Hg; subst; reflexivity); try discriminate.
+    injection Hg as <-.
+    rewrite (compile_dot comp gmode a Hc).
+    assert (Hm : forall n, comp_matches comp n = Some (full_match [map fst a] (syms_of n))).
+    { intros n. unfold comp_matches. rewrite Hu. fold gmode. rewrite Hc, full_match_pmb. reflexivity. }
+    set (c := fun n : bytes => negb (negb (beqb sep [])) || exists_path root cwd (norm p ++ n) true).
+    rewrite (flat_map_ext_in _ (fun n => if c n then [(fun n => norm p ++ n ++ sep) n] else [])).
+    2:{ intros n _. cbv zeta. rewrite norm_join. unfold c. destruct (_ || _); [now rewrite <- app_assoc|reflexivity]. }
+    rewrite flat_map_if, !filter_app. f_equal. f_equal.
+    - destruct (literal_dot comp) eqn:Ed; [|reflexivity].
+      change (filter c (filter (fun n => full_match [map fst a] (syms_of n)) [[46]; [46; 46]]) = filter (pat_ok comp sep (norm p)) [[46]; [46; 46]]).
+      apply filter_filter_ext. intros n.
+      unfold pat_ok. rewrite Hm, Ed. unfold c, exists_path. destruct (full_match _ _); reflexivity.
+    - apply filter_filter_ext. intros n. unfold pat_ok. rewrite Hm. unfold c, exists_path.
+      destruct (full_match _ _); cbn [andb]; reflexivity.
+  Qed.
+
+  Lemma pat_G_names comp sep pre :
+    Forall (fun q => exists n, q = pre ++ n ++ sep /\ slashes n = 0%nat) (pat_G comp sep pre).
+  Proof.
+    unfold pat_G. destruct (resolve root cwd _) as [[| |es]|] eqn:Er; try constructor.
+    apply Forall_forall. intros q Hq. apply in_map_iff in Hq as (n & <- & Hn). exists n. split; [reflexivity|].
+    apply filter_In in Hn as [Hn _]. apply in_app_or in Hn as [Hn|Hn].
+    - destruct (literal_dot comp); [|destruct Hn]. destruct Hn as [<-|[<-|[]]]; reflexivity.
+    - pose proof (resolve_wf _ _ _ _ Hwf Er) as Hd. pose proof (names_wf es Hd) as Hf.
+      rewrite Forall_forall in Hf. apply Hf, Hn.
+  Qed.
+End Exact.
